@@ -74,7 +74,7 @@ fn query_of(prefix: &str, tag: usize, qlen: usize) -> Vec<u8> {
 }
 
 /// entry points used for "the next call" after the fault (clients)
-const FOLLOW: &str = "tTjJyYbmfF";
+const FOLLOW: &str = "tTjJyYvVbmfF";
 fn is_follow(k: char) -> bool {
     FOLLOW.contains(k)
 }
@@ -82,30 +82,160 @@ fn is_json(k: char) -> bool {
     "jJyYb".contains(k)
 }
 
-#[derive(Clone, Debug)]
+#[derive(Clone, Debug, Default)]
 struct Wr {
     /// clients: c call, n notify (issued concurrently before the fault); issued one after the other once
     /// the fault happened: t notify_with_formats, T call_with_formats, j notify_json, J call_json,
-    /// y notify_typed_json, Y call_typed_json, b batch_json (all b's of a script in one batch),
-    /// m call_message (empty body), f forward_message(notify), F forward_message(request) (async client).
-    /// servers: r request, q notify-request, p pushed notify (WebSocket server)
+    /// y notify_typed_json, Y call_typed_json, v notify_typed_beve, V call_typed_beve, b batch_json (all b's of
+    /// a script in one batch), m call_message (empty body), f forward_message(notify), F forward_message(request)
+    /// (async client).
+    /// servers: r request (inline route), o request to an off-reader route (WebSocket server), q notify-request,
+    /// p pushed notify, B broadcast notify, h notify pushed from the connect hook (WebSocket server)
     kind: char,
     size: usize,
-    /// query length (0 = the short `/x/<tag>`); longer queries are padded with pattern characters
+    /// q: query length (0 = the short `/x/<tag>`); longer queries are padded with pattern characters
     qlen: usize,
+    /// f: query format code (default 1 = JSON pointer)
+    qf: Option<u16>,
+    /// g: body format code (default: what the entry point uses)
+    bf: Option<u16>,
+    /// i: id of a forwarded message (clients) / of the request (servers)
+    id: Option<u64>,
+    /// y: notify byte of a forwarded message / of the request (only 1 means notify)
+    nb: Option<u8>,
+    /// u: path variant: 0 ASCII, 1 non-ASCII UTF-8, 2 empty path (clients)
+    pv: u8,
+    /// z: 1 = body passed as `None` instead of `Some(&[])` (size 0)
+    zb: bool,
+    /// h: what the handler does (servers): 0 answers, 1 returns Err, 2 panics with a String, 3 with a &str,
+    /// 4 with a non-string payload, 5 is slow, 6 pushes a notify to the calling peer before answering
+    hb: u8,
+    /// t: 0 `_with_timeout` twin with the script's call timeout, 1 the twin without a timeout, 2 timeout 0, 3 timeout 1 ms
+    tv: u8,
+    /// v: REPE version byte of the request (servers)
+    ver: Option<u8>,
+    /// x: 1 = the request goes to a path that is not routed (servers)
+    xr: bool,
+}
+
+impl Wr {
+    fn token(&self) -> String {
+        let mut t = format!("{}{}", self.kind, self.size);
+        let mut add = |c: char, v: u64, on: bool| {
+            if on {
+                t.push_str(&format!("{}{}", c, v));
+            }
+        };
+        add('q', self.qlen as u64, self.qlen > 0);
+        add('f', self.qf.unwrap_or(0) as u64, self.qf.is_some());
+        add('g', self.bf.unwrap_or(0) as u64, self.bf.is_some());
+        add('i', self.id.unwrap_or(0), self.id.is_some());
+        add('y', self.nb.unwrap_or(0) as u64, self.nb.is_some());
+        add('u', self.pv as u64, self.pv > 0);
+        add('z', 1, self.zb);
+        add('h', self.hb as u64, self.hb > 0);
+        add('t', self.tv as u64, self.tv > 0);
+        add('v', self.ver.unwrap_or(0) as u64, self.ver.is_some());
+        add('x', 1, self.xr);
+        t
+    }
+    fn parse(t: &str) -> Option<Wr> {
+        let mut ch = t.chars();
+        let kind = ch.next()?;
+        if !kind.is_ascii_alphabetic() {
+            return None;
+        }
+        let rest: Vec<char> = ch.collect();
+        let mut i = 0;
+        let num = |i: &mut usize| -> Option<u64> {
+            let st = *i;
+            while *i < rest.len() && rest[*i].is_ascii_digit() {
+                *i += 1;
+            }
+            rest[st..*i].iter().collect::<String>().parse().ok()
+        };
+        let mut w = Wr { kind, size: num(&mut i)? as usize, ..Default::default() };
+        while i < rest.len() {
+            let c = rest[i];
+            i += 1;
+            let v = num(&mut i)?;
+            match c {
+                'q' => w.qlen = v as usize,
+                'f' => w.qf = Some(u16::try_from(v).ok()?),
+                'g' => w.bf = Some(u16::try_from(v).ok()?),
+                'i' => w.id = Some(v),
+                'y' => w.nb = Some(u8::try_from(v).ok()?),
+                'u' => w.pv = u8::try_from(v).ok()?,
+                'z' => w.zb = v == 1,
+                'h' => w.hb = u8::try_from(v).ok()?,
+                't' => w.tv = u8::try_from(v).ok()?,
+                'v' => w.ver = Some(u8::try_from(v).ok()?),
+                'x' => w.xr = v == 1,
+                _ => return None,
+            }
+        }
+        if ((is_json(kind) || kind == 'o') && w.size < 2) || (kind == 'm' && w.size != 0) || (w.zb && w.size != 0) || w.pv > 2 {
+            return None;
+        }
+        Some(w)
+    }
+    /// query bytes of this writer's frame
+    fn path(&self, prefix: &str, tag: usize) -> Vec<u8> {
+        match self.pv {
+            2 => Vec::new(),
+            1 => {
+                let mut q = format!("{}{}/\u{e9}\u{2713}", prefix, tag).into_bytes();
+                while q.len() < self.qlen {
+                    let i = q.len() as u64;
+                    q.push(qchar(tag as u64, i));
+                }
+                q
+            }
+            _ => query_of(if self.xr { "/nope/" } else { prefix }, tag, self.qlen),
+        }
+    }
+    fn path_str(&self, prefix: &str, tag: usize) -> String {
+        String::from_utf8(self.path(prefix, tag)).unwrap()
+    }
+}
+
+/// body of `notify_typed_beve` / `call_typed_beve` for this tag: the BEVE encoding of a string (computed with
+/// the `beve` crate, a dependency of the crate under test, not the crate itself)
+fn beve_body(tag: u64, size: usize) -> (String, Vec<u8>) {
+    let s: String = (0..size as u64).map(|i| (b'a' + ((tag + i) % 26) as u8) as char).collect();
+    let b = beve::to_vec(&s).expect("beve encode");
+    (s, b)
 }
 
 /// One frame the endpoint may legitimately put on the wire.
 struct Exp {
     tag: usize,
     kind: char,
+    qfmt: u16,
     bfmt: u16,
     query: Vec<u8>,
     size: usize,
     notify: u8,
     /// `None`: assigned by the endpoint (client request ids) – any value accepted
     id: Option<u64>,
+    /// explicit body bytes (BEVE) instead of a pattern: the model treats such a frame as opaque
+    body: Option<Vec<u8>>,
+    /// the model cannot build this frame (a notify byte other than 0/1): opaque for it, checked here all the same
+    opaque: bool,
+    /// the pattern frame may appear
+    norm_ok: bool,
+    /// an error response with this id may appear instead (servers: any request may be answered by an error)
+    err_ok: bool,
 }
+
+/// result of matching an expected frame against the bytes at a frame boundary
+#[derive(Clone, Copy)]
+struct Match {
+    len: usize,
+    total: usize,
+    opaque: bool,
+}
+
 impl Exp {
     fn total(&self) -> usize {
         48 + self.query.len() + self.size
@@ -120,7 +250,7 @@ impl Exp {
             id,
             query_length: self.query.len() as u64,
             body_length: self.size as u64,
-            query_format: 1,
+            query_format: self.qfmt,
             body_format: self.bfmt,
             ec: 0,
         }
@@ -139,6 +269,8 @@ impl Exp {
                 h[i]
             } else if i < 48 + q {
                 self.query[i - 48]
+            } else if let Some(b) = &self.body {
+                b[i - 48 - q]
             } else {
                 body_byte(self.kind, self.tag as u64, (i - 48 - q) as u64, self.size as u64)
             };
@@ -148,24 +280,99 @@ impl Exp {
         }
         n
     }
+    /// an error response to this request: consistent header, version 1, not a notify, the request's id,
+    /// ec != 0; query and body are taken by their declared lengths (an echoed query must be the request's)
+    fn err_match(&self, s: &[u8]) -> Match {
+        let none = Match { len: 0, total: usize::MAX, opaque: true };
+        let Some(id) = self.id else { return none };
+        let idb = id.to_le_bytes();
+        for i in 0..s.len().min(48) {
+            let ok = match i {
+                8 => s[i] == 0x07,
+                9 => s[i] == 0x15,
+                10 => s[i] == 1,
+                11..=15 => s[i] == 0,
+                16..=23 => s[i] == idb[i - 16],
+                _ => true,
+            };
+            if !ok {
+                return Match { len: i, total: usize::MAX, opaque: true };
+            }
+        }
+        if s.len() < 48 {
+            return Match { len: s.len(), total: usize::MAX, opaque: true };
+        }
+        let h = RawHeader::parse(s).unwrap();
+        if !h.consistent() || h.ec == 0 || h.length > (1 << 30) {
+            return none;
+        }
+        let total = h.length as usize;
+        let ql = h.query_length as usize;
+        if ql == self.query.len() {
+            for i in 0..ql.min(s.len() - 48) {
+                if s[48 + i] != self.query[i] {
+                    return Match { len: 48 + i, total, opaque: true };
+                }
+            }
+        }
+        Match { len: s.len().min(total), total, opaque: true }
+    }
+    fn matches(&self, s: &[u8]) -> Match {
+        let n = if self.norm_ok { Match { len: self.lcp(s), total: self.total(), opaque: self.body.is_some() || self.opaque } } else { Match { len: 0, total: usize::MAX, opaque: true } };
+        if self.err_ok {
+            let e = self.err_match(s);
+            if e.len > n.len || (e.len == n.len && !self.norm_ok) {
+                return e;
+            }
+        }
+        n
+    }
 }
 
 fn expected_frames(ep: usize, ws: &[Wr]) -> Vec<Exp> {
     let mut v = Vec::new();
     for (tag, w) in ws.iter().enumerate() {
+        // (prefix, notify byte, id, default body format)
         let e = match (ep, w.kind) {
             (0..=2, 'c') | (0..=2, 'T') | (0..=2, 'm') => Some(("/t/", 0u8, None, 0u16)),
             (0..=2, 'n') | (0..=2, 't') => Some(("/t/", 1, None, 0)),
             (0..=2, 'j') | (0..=2, 'y') => Some(("/t/", 1, None, 2)),
             (0..=2, 'J') | (0..=2, 'Y') | (0..=2, 'b') => Some(("/t/", 0, None, 2)),
-            (1, 'f') => Some(("/t/", 1, Some(5000 + tag as u64), 0)),
-            (1, 'F') => Some(("/t/", 0, Some(5000 + tag as u64), 0)),
-            (3..=6, 'r') => Some(("/g/", 0, Some(1000 + tag as u64), 0)),
-            (5, 'p') | (5, 'B') => Some(("/p/", 1, Some(0), 0)),
-            _ => None, // 'q': a notify request, no response may appear
+            (0..=2, 'v') => Some(("/t/", 1, None, 1)),
+            (0..=2, 'V') => Some(("/t/", 0, None, 1)),
+            (1, 'f') => Some(("/t/", w.nb.unwrap_or(1), Some(w.id.unwrap_or(5000 + tag as u64)), 0)),
+            (1, 'F') => Some(("/t/", w.nb.unwrap_or(0), Some(w.id.unwrap_or(5000 + tag as u64)), 0)),
+            (3..=6, 'r') if w.nb != Some(1) => Some(("/g/", 0, Some(w.id.unwrap_or(1000 + tag as u64)), 0)),
+            (3..=6, 'o') if w.nb != Some(1) => Some(("/o/", 0, Some(w.id.unwrap_or(1000 + tag as u64)), 2)),
+            (5, 'p') | (5, 'B') | (5, 'h') => Some(("/p/", 1, Some(0), 0)),
+            _ => None, // 'q' (or a request whose notify byte is 1): no response may appear
         };
         if let Some((pre, notify, id, bfmt)) = e {
-            v.push(Exp { tag, kind: w.kind, bfmt, query: query_of(pre, tag, w.qlen), size: w.size, notify, id });
+            let server_req = ep >= 3 && (w.kind == 'r' || w.kind == 'o');
+            let beve = w.kind == 'v' || w.kind == 'V';
+            let body = if beve { Some(beve_body(tag as u64, w.size).1) } else { None };
+            let size = body.as_ref().map_or(w.size, |b| b.len());
+            // a request that cannot be dispatched (or whose handler fails) is answered by an error response only
+            let refused = server_req && (w.xr || w.ver.map_or(false, |x| x != 1) || w.qf.map_or(false, |f| f != 1) || w.hb == 1);
+            let bfmt = if server_req && w.kind == 'r' { w.bf.unwrap_or(0) } else if server_req { bfmt } else { w.bf.unwrap_or(bfmt) };
+            v.push(Exp {
+                tag,
+                kind: if w.kind == 'o' { 'J' } else { w.kind },
+                qfmt: if server_req { 1 } else { w.qf.unwrap_or(1) },
+                bfmt,
+                query: w.path(pre, tag),
+                size,
+                notify,
+                id,
+                body,
+                opaque: notify > 1,
+                norm_ok: !refused,
+                err_ok: server_req,
+            });
+            if ep == 5 && w.kind == 'r' && w.hb == 6 && !refused {
+                // the handler pushes this notify to the calling peer before it answers
+                v.push(Exp { tag: tag + 100, kind: 'p', qfmt: 1, bfmt: 0, query: query_of("/p/", tag + 100, 0), size: 64, notify: 1, id: Some(0), body: None, opaque: false, norm_ok: true, err_ok: false });
+            }
         }
     }
     v
@@ -176,8 +383,10 @@ fn expected_frames(ep: usize, ws: &[Wr]) -> Vec<Exp> {
 // ---------------------------------------------------------------------------------------------
 #[derive(Default, Debug)]
 struct Parsed {
-    frames: Vec<(usize, u64)>,
-    torn: Option<(usize, u64, usize)>,
+    /// whole frames: (tag, id on the wire, Some(total) if the frame is opaque for the model)
+    frames: Vec<(usize, u64, Option<usize>)>,
+    /// torn tail: (tag, id, bytes present, Some(total) if opaque)
+    torn: Option<(usize, u64, usize, Option<usize>)>,
     after: bool,
     viol: Option<(String, String)>,
     bounds: Vec<usize>,
@@ -190,32 +399,34 @@ fn analyse(s: &[u8], exps: &[Exp]) -> Parsed {
     while pos < s.len() {
         let rest = &s[pos..];
         // best unseen candidate, then best seen one (duplicate detection)
-        let mut best: Option<(usize, usize)> = None;
-        let mut best_seen: Option<(usize, usize)> = None;
+        let mut best: Option<(Match, usize)> = None;
+        let mut best_seen: Option<(Match, usize)> = None;
         for (i, e) in exps.iter().enumerate() {
-            let l = e.lcp(rest);
+            let m = e.matches(rest);
             let slot = if seen[i] { &mut best_seen } else { &mut best };
-            if slot.map_or(true, |(bl, _)| l > bl) {
-                *slot = Some((l, i));
+            if slot.map_or(true, |(bm, _)| m.len > bm.len) {
+                *slot = Some((m, i));
             }
         }
-        if let Some((l, i)) = best_seen {
-            if l == exps[i].total() && best.map_or(true, |(bl, bi)| bl < exps[bi].total()) {
+        if let Some((m, i)) = best_seen {
+            if m.len == m.total && best.map_or(true, |(bm, _)| bm.len < bm.total) {
                 p.after = true;
                 p.viol = Some(("duplicate_frame".into(), format!("frame tag {} appears a second time at stream offset {}", exps[i].tag, pos)));
                 return p;
             }
         }
-        let Some((l, i)) = best else {
+        let Some((m, i)) = best else {
             p.after = true;
             p.viol = Some(("unknown_bytes".into(), format!("{} byte(s) at stream offset {} after every expected frame was seen", rest.len(), pos)));
             return p;
         };
         let e = &exps[i];
+        let l = m.len;
+        let opq = |t: usize| if m.opaque { Some(if t == usize::MAX { l + 1 } else { t }) } else { None };
         let id = if rest.len() >= 24 { u64::from_le_bytes(rest[16..24].try_into().unwrap()) } else { 0 };
-        if l == e.total() {
+        if l == m.total {
             seen[i] = true;
-            p.frames.push((e.tag, id));
+            p.frames.push((e.tag, id, opq(m.total)));
             pos += l;
             p.bounds.push(pos);
             continue;
@@ -225,7 +436,7 @@ fn analyse(s: &[u8], exps: &[Exp]) -> Parsed {
                 p.after = true;
                 p.viol = Some(("unknown_bytes".into(), format!("byte at stream offset {} starts no expected frame", pos)));
             } else {
-                p.torn = Some((e.tag, id, l));
+                p.torn = Some((e.tag, id, l, opq(m.total)));
             }
             return p;
         }
@@ -233,22 +444,23 @@ fn analyse(s: &[u8], exps: &[Exp]) -> Parsed {
         p.after = true;
         if l == 0 {
             let what = match RawFrame::parse_prefix(rest) {
-                Some((f, _)) => format!("a consistent frame that was never submitted (id {} query {:?} body {} B)", f.h.id, String::from_utf8_lossy(&f.query), f.body.len()),
+                Some((f, _)) => format!("a consistent frame that was never submitted (id {} ec {} query {:?} body {} B)", f.h.id, f.h.ec, String::from_utf8_lossy(&f.query[..f.query.len().min(40)]), f.body.len()),
                 None => "bytes that start no expected frame".to_string(),
             };
             p.viol = Some(("unknown_bytes".into(), format!("at stream offset {}: {}", pos, what)));
         } else {
-            p.torn = Some((e.tag, id, l));
+            p.torn = Some((e.tag, id, l, opq(m.total)));
             // what follows?  (for the report only)
             let follow = &s[pos + l..];
-            let next = exps.iter().enumerate().filter(|(j, _)| *j != i).map(|(_, x)| (x.lcp(follow), x.tag)).max();
+            let next = exps.iter().enumerate().filter(|(j, _)| *j != i).map(|(_, x)| (x.matches(follow).len, x.tag)).max();
             let what = match next {
                 Some((nl, nt)) if nl >= 48.min(follow.len()) && nl > 0 => format!("the first {} byte(s) of frame tag {}", nl, nt),
                 _ => format!("{} other byte(s)", follow.len()),
             };
+            let tot = if m.total == usize::MAX { "?".to_string() } else { m.total.to_string() };
             p.viol = Some((
                 "bytes_after_torn_frame".into(),
-                format!("frame tag {} ({} B) is cut after {} byte(s) at stream offset {} and is followed on the same connection by {}", e.tag, e.total(), l, pos + l, what),
+                format!("frame tag {} ({} B) is cut after {} byte(s) at stream offset {} and is followed on the same connection by {}", e.tag, tot, l, pos + l, what),
             ));
         }
         return p;
@@ -502,7 +714,9 @@ impl Gate {
     }
     /// peer has read up to the stall point (or the connection ended)
     fn at_stall(&self, at: u64) -> bool {
-        self.drained.load(SeqCst) >= at || self.eof.load(SeqCst)
+        // … or nothing has arrived for a while: the endpoint will never send that much (refused requests,
+        // a connection that ended early)
+        self.drained.load(SeqCst) >= at || self.eof.load(SeqCst) || (self.t0.elapsed() > Duration::from_millis(600) && self.since_last_read() > Duration::from_millis(500))
     }
 }
 
@@ -585,10 +799,19 @@ struct Script {
     stall_at: u64,
     stall_ms: u64,
     fault: Fault,
+    /// knobs held at their defaults unless listed: ct call timeout ms (60), cap WebSocket outbound channel
+    /// capacity (16), nd tcp_nodelay (1), rto server read timeout ms (0 = none), via 1 = the WebSocket server is
+    /// driven through `into_shared().accept` + `serve_connection_with_cancel` instead of `serve_listener*`,
+    /// conns 2 = a second connection to the same server afterwards, lim assumed peer frame limit of the
+    /// WebSocket server (0 = 64 MiB), off off-reader limit (absent = default)
+    opt: std::collections::BTreeMap<String, u64>,
     ws: Vec<Wr>,
 }
 
 impl Script {
+    fn o(&self, k: &str, default: u64) -> u64 {
+        *self.opt.get(k).unwrap_or(&default)
+    }
     fn line(&self) -> String {
         let (fk, fa) = match &self.fault {
             Fault::None => ("none", 0i64),
@@ -596,14 +819,30 @@ impl Script {
             Fault::Cancel(w) => ("cancel", *w),
             Fault::Drain(t) => ("drain", *t as i64),
         };
-        let ws: Vec<String> = self.ws.iter().map(|w| if w.qlen > 0 { format!("{}{}q{}", w.kind, w.size, w.qlen) } else { format!("{}{}", w.kind, w.size) }).collect();
-        format!("torn {} {} buf {} rt {} chunk {} stall {} {} fault {} {} w {}", self.idx, self.ep, self.buf, self.rt, self.chunk, self.stall_at, self.stall_ms, fk, fa, ws.join(","))
+        let ws: Vec<String> = self.ws.iter().map(|w| w.token()).collect();
+        let opt: Vec<String> = self.opt.iter().map(|(k, v)| format!("{}={}", k, v)).collect();
+        let opt = if opt.is_empty() { "-".to_string() } else { opt.join("/") };
+        format!("torn {} {} buf {} rt {} chunk {} stall {} {} fault {} {} opt {} w {}", self.idx, self.ep, self.buf, self.rt, self.chunk, self.stall_at, self.stall_ms, fk, fa, opt, ws.join(","))
     }
     fn parse(line: &str) -> Option<Script> {
         let w = words(line);
-        if w.len() < 17 || w[0] != "torn" || w[3] != "buf" || w[5] != "rt" || w[7] != "chunk" || w[9] != "stall" || w[12] != "fault" || w[15] != "w" {
+        if w.len() < 17 || w[0] != "torn" || w[3] != "buf" || w[5] != "rt" || w[7] != "chunk" || w[9] != "stall" || w[12] != "fault" {
             return None;
         }
+        let mut opt = std::collections::BTreeMap::new();
+        let wi = if w[15] == "opt" && w.len() >= 19 && w[17] == "w" {
+            if w[16] != "-" {
+                for kv in w[16].split('/') {
+                    let (k, v) = kv.split_once('=')?;
+                    opt.insert(k.to_string(), v.parse().ok()?);
+                }
+            }
+            18
+        } else if w[15] == "w" {
+            16
+        } else {
+            return None;
+        };
         let fa: i64 = w[14].parse().ok()?;
         let fault = match w[13] {
             "none" => Fault::None,
@@ -613,30 +852,23 @@ impl Script {
             _ => return None,
         };
         let mut ws = Vec::new();
-        for t in w[16].split(',') {
-            let kind = t.chars().next()?;
-            if !kind.is_ascii_alphabetic() {
-                return None;
-            }
-            let (sz, ql) = match t[1..].split_once('q') {
-                Some((a, b)) => (a, b.parse().ok()?),
-                None => (&t[1..], 0usize),
-            };
-            let size: usize = sz.parse().ok()?;
-            if (is_json(kind) && size < 2) || (kind == 'm' && size != 0) {
-                return None;
-            }
-            ws.push(Wr { kind, size, qlen: ql });
+        for t in w[wi].split(',') {
+            ws.push(Wr::parse(t)?);
         }
         let ep: usize = w[2].parse().ok()?;
-        if ep > 6 || ws.len() > 64 {
+        if ep > 6 || ws.len() > 96 {
             return None;
         }
-        Some(Script { idx: w[1].to_string(), ep, buf: w[4].parse().ok()?, rt: w[6].parse().ok()?, chunk: w[8].parse().ok()?, stall_at: w[10].parse().ok()?, stall_ms: w[11].parse().ok()?, fault, ws })
+        Some(Script { idx: w[1].to_string(), ep, buf: w[4].parse().ok()?, rt: w[6].parse().ok()?, chunk: w[8].parse().ok()?, stall_at: w[10].parse().ok()?, stall_ms: w[11].parse().ok()?, fault, opt, ws })
     }
 }
 
+/// requests of the second connection (tag, response size)
+const SECOND: [(usize, usize); 3] = [(60, 100), (61, 9000), (62, 20000)];
+
 struct Capture {
+    /// what a second connection to the same server received (REPE level), if the script asked for one
+    second: Option<Vec<u8>>,
     rep: Vec<u8>,
     ws: Option<WsCapture>,
     notes: Vec<&'static str>,
@@ -663,23 +895,41 @@ fn run_blocking_client(sc: &Script) -> Result<Capture, String> {
     let done = Arc::new(AtomicUsize::new(0));
     let errs = Arc::new(AtomicUsize::new(0));
     let barrier = Arc::new(Barrier::new(first.len() + 1));
-    let send = |client: &Client, tag: usize, w: &Wr| -> Result<(), RepeError> {
-        let path = String::from_utf8(query_of("/t/", tag, w.qlen)).unwrap();
-        let to = Duration::from_millis(if w.kind == 'c' { 150 } else { 60 });
+    let ct = sc.o("ct", 60);
+    let send = move |client: &Client, tag: usize, w: &Wr| -> Result<(), RepeError> {
+        let path = w.path_str("/t/", tag);
+        let to = call_timeout(w, ct);
+        let no_to = w.tv == 1;
+        let qf = w.qf.unwrap_or(1);
         if is_json(w.kind) {
             let s = json_string(tag as u64, w.size);
-            return match w.kind {
-                'j' => client.notify_json(&path, &serde_json::Value::String(s)),
-                'J' => client.call_json_with_timeout(&path, &serde_json::Value::String(s), to).map(|_| ()),
-                'y' => client.notify_typed_json(&path, &s),
-                _ => client.call_typed_json_with_timeout::<_, String, String>(&path, &s, to).map(|_| ()),
+            let v = serde_json::Value::String(s.clone());
+            return match (w.kind, no_to) {
+                ('j', _) => client.notify_json(&path, &v),
+                ('J', false) => client.call_json_with_timeout(&path, &v, to).map(|_| ()),
+                ('J', true) => client.call_json(&path, &v).map(|_| ()),
+                ('y', _) => client.notify_typed_json(&path, &s),
+                (_, false) => client.call_typed_json_with_timeout::<_, String, String>(&path, &s, to).map(|_| ()),
+                (_, true) => client.call_typed_json::<_, String, String>(&path, &s).map(|_| ()),
+            };
+        }
+        if w.kind == 'v' || w.kind == 'V' {
+            let (s, _) = beve_body(tag as u64, w.size);
+            return match (w.kind, no_to) {
+                ('v', _) => client.notify_typed_beve(&path, &s),
+                (_, false) => client.call_typed_beve_with_timeout::<_, String, String>(&path, &s, to).map(|_| ()),
+                (_, true) => client.call_typed_beve::<_, String, String>(&path, &s).map(|_| ()),
             };
         }
         let body = pat(tag as u64, w.size);
-        match w.kind {
-            'c' | 'T' => client.call_with_formats_and_timeout(&path, 1, Some(&body), 0, to).map(|_| ()),
-            'm' => client.call_message_with_timeout(&path, to).map(|_| ()),
-            _ => client.notify_with_formats(&path, 1, Some(&body), 0),
+        let b: Option<&[u8]> = if w.zb { None } else { Some(&body) };
+        let bf = w.bf.unwrap_or(0);
+        match (w.kind, no_to) {
+            ('c', false) | ('T', false) => client.call_with_formats_and_timeout(&path, qf, b, bf, to).map(|_| ()),
+            ('c', true) | ('T', true) => client.call_with_formats(&path, qf, b, bf).map(|_| ()),
+            ('m', false) => client.call_message_with_timeout(&path, to).map(|_| ()),
+            ('m', true) => client.call_message(&path).map(|_| ()),
+            _ => client.notify_with_formats(&path, qf, b, bf),
         }
     };
     for &tag in &first {
@@ -703,7 +953,7 @@ fn run_blocking_client(sc: &Script) -> Result<Capture, String> {
     let batch: Vec<(String, serde_json::Value)> = later
         .iter()
         .filter(|t| sc.ws[**t].kind == 'b')
-        .map(|&t| (String::from_utf8(query_of("/t/", t, sc.ws[t].qlen)).unwrap(), serde_json::Value::String(json_string(t as u64, sc.ws[t].size))))
+        .map(|&t| (sc.ws[t].path_str("/t/", t), serde_json::Value::String(json_string(t as u64, sc.ws[t].size))))
         .collect();
     let mut batch_sent = false;
     for &tag in &later {
@@ -716,7 +966,7 @@ fn run_blocking_client(sc: &Script) -> Result<Capture, String> {
             batch_sent = true;
             let batch = batch.clone();
             std::thread::spawn(move || {
-                let _ = client.batch_json_with_timeout(batch, Duration::from_millis(60));
+                let _ = client.batch_json_with_timeout(batch, Duration::from_millis(ct));
                 d.store(true, SeqCst);
             });
         } else {
@@ -725,7 +975,9 @@ fn run_blocking_client(sc: &Script) -> Result<Capture, String> {
                 d.store(true, SeqCst);
             });
         }
-        if !wait_until(|| done2.load(SeqCst), WATCHDOG) {
+        // the twin without a timeout returns only when the connection ends: give its request time to go out
+        let limit = if sc.ws[tag].tv == 1 { Duration::from_millis(150) } else { WATCHDOG };
+        if !wait_until(|| done2.load(SeqCst), limit) && sc.ws[tag].tv != 1 {
             notes.push("writer-watchdog");
         }
     }
@@ -736,7 +988,7 @@ fn run_blocking_client(sc: &Script) -> Result<Capture, String> {
     let rep = rd.join().map_err(|_| "reader panicked".to_string())?;
     drop(client);
     drop(sock);
-    Ok(Capture { rep, ws: None, notes })
+    Ok(Capture { second: None, rep, ws: None, notes })
 }
 
 // ---------------------------------------------------------------------------------------------
@@ -748,40 +1000,66 @@ enum AnyClient {
     W(WebSocketClient),
 }
 impl AnyClient {
-    async fn send(&self, tag: usize, w: &Wr) -> Result<(), RepeError> {
-        let path = String::from_utf8(query_of("/t/", tag, w.qlen)).unwrap();
-        let to = Duration::from_millis(if w.kind == 'c' { 150 } else { 60 });
+    async fn send(&self, tag: usize, w: &Wr, ct: u64) -> Result<(), RepeError> {
+        let path = w.path_str("/t/", tag);
+        let to = call_timeout(w, ct);
+        let no_to = w.tv == 1;
+        let qf = w.qf.unwrap_or(1);
         if is_json(w.kind) {
             let s = json_string(tag as u64, w.size);
             let v = serde_json::Value::String(s.clone());
-            return match (self, w.kind) {
-                (AnyClient::A(c), 'j') => c.notify_json(&path, &v).await,
-                (AnyClient::A(c), 'J') => c.call_json_with_timeout(&path, &v, to).await.map(|_| ()),
-                (AnyClient::A(c), 'y') => c.notify_typed_json(&path, &s).await,
-                (AnyClient::A(c), _) => c.call_typed_json_with_timeout::<_, String, String>(&path, &s, to).await.map(|_| ()),
-                (AnyClient::W(c), 'j') => c.notify_json(&path, &v).await,
-                (AnyClient::W(c), 'J') => c.call_json_with_timeout(&path, &v, to).await.map(|_| ()),
-                (AnyClient::W(c), 'y') => c.notify_typed_json(&path, &s).await,
-                (AnyClient::W(c), _) => c.call_typed_json_with_timeout::<_, String, String>(&path, &s, to).await.map(|_| ()),
+            return match (self, w.kind, no_to) {
+                (AnyClient::A(c), 'j', _) => c.notify_json(&path, &v).await,
+                (AnyClient::A(c), 'J', false) => c.call_json_with_timeout(&path, &v, to).await.map(|_| ()),
+                (AnyClient::A(c), 'J', true) => c.call_json(&path, &v).await.map(|_| ()),
+                (AnyClient::A(c), 'y', _) => c.notify_typed_json(&path, &s).await,
+                (AnyClient::A(c), _, false) => c.call_typed_json_with_timeout::<_, String, String>(&path, &s, to).await.map(|_| ()),
+                (AnyClient::A(c), _, true) => c.call_typed_json::<_, String, String>(&path, &s).await.map(|_| ()),
+                (AnyClient::W(c), 'j', _) => c.notify_json(&path, &v).await,
+                (AnyClient::W(c), 'J', false) => c.call_json_with_timeout(&path, &v, to).await.map(|_| ()),
+                (AnyClient::W(c), 'J', true) => c.call_json(&path, &v).await.map(|_| ()),
+                (AnyClient::W(c), 'y', _) => c.notify_typed_json(&path, &s).await,
+                (AnyClient::W(c), _, false) => c.call_typed_json_with_timeout::<_, String, String>(&path, &s, to).await.map(|_| ()),
+                (AnyClient::W(c), _, true) => c.call_typed_json::<_, String, String>(&path, &s).await.map(|_| ()),
+            };
+        }
+        if w.kind == 'v' || w.kind == 'V' {
+            let (s, _) = beve_body(tag as u64, w.size);
+            return match (self, w.kind, no_to) {
+                (AnyClient::A(c), 'v', _) => c.notify_typed_beve(&path, &s).await,
+                (AnyClient::A(c), _, false) => c.call_typed_beve_with_timeout::<_, String, String>(&path, &s, to).await.map(|_| ()),
+                (AnyClient::A(c), _, true) => c.call_typed_beve::<_, String, String>(&path, &s).await.map(|_| ()),
+                (AnyClient::W(c), 'v', _) => c.notify_typed_beve(&path, &s).await,
+                (AnyClient::W(c), _, false) => c.call_typed_beve_with_timeout::<_, String, String>(&path, &s, to).await.map(|_| ()),
+                (AnyClient::W(c), _, true) => c.call_typed_beve::<_, String, String>(&path, &s).await.map(|_| ()),
             };
         }
         let body = pat(tag as u64, w.size);
-        match (self, w.kind) {
-            (AnyClient::A(c), 'f') | (AnyClient::A(c), 'F') => {
-                // a relay: a prebuilt message handed to the connection as it is
-                let m = Message::builder().id(5000 + tag as u64).notify(w.kind == 'f').query_str(&path).query_format_code(1).body_bytes(body).body_format_code(0).build();
-                c.forward_message_with_timeout(&m, to).await.map(|_| ())
+        let bf = w.bf.unwrap_or(0);
+        if let (AnyClient::A(c), 'f' | 'F') = (self, w.kind) {
+            // a relay: a prebuilt message handed to the connection as it is (id, notify byte and formats included)
+            let mut m = Message::builder().id(w.id.unwrap_or(5000 + tag as u64)).notify(w.kind == 'f').query_bytes(w.path("/t/", tag)).query_format_code(qf).body_bytes(body).body_format_code(bf).build();
+            if let Some(nb) = w.nb {
+                m.header.notify = nb;
             }
-            (AnyClient::A(c), 'c') | (AnyClient::A(c), 'T') => c.call_with_formats_and_timeout(&path, 1, Some(&body), 0, to).await.map(|_| ()),
-            (AnyClient::A(c), 'm') => c.call_message_with_timeout(&path, to).await.map(|_| ()),
-            (AnyClient::A(c), _) => c.notify_with_formats(&path, 1, Some(&body), 0).await,
-            (AnyClient::W(c), 'c') | (AnyClient::W(c), 'T') => c.call_with_formats_and_timeout(&path, 1, Some(&body), 0, to).await.map(|_| ()),
-            (AnyClient::W(c), 'm') => c.call_message_with_timeout(&path, to).await.map(|_| ()),
-            (AnyClient::W(c), _) => c.notify_with_formats(&path, 1, Some(&body), 0).await,
+            return if no_to { c.forward_message(&m).await.map(|_| ()) } else { c.forward_message_with_timeout(&m, to).await.map(|_| ()) };
+        }
+        let b: Option<&[u8]> = if w.zb { None } else { Some(&body) };
+        match (self, w.kind, no_to) {
+            (AnyClient::A(c), 'c' | 'T', false) => c.call_with_formats_and_timeout(&path, qf, b, bf, to).await.map(|_| ()),
+            (AnyClient::A(c), 'c' | 'T', true) => c.call_with_formats(&path, qf, b, bf).await.map(|_| ()),
+            (AnyClient::A(c), 'm', false) => c.call_message_with_timeout(&path, to).await.map(|_| ()),
+            (AnyClient::A(c), 'm', true) => c.call_message(&path).await.map(|_| ()),
+            (AnyClient::A(c), _, _) => c.notify_with_formats(&path, qf, b, bf).await,
+            (AnyClient::W(c), 'c' | 'T', false) => c.call_with_formats_and_timeout(&path, qf, b, bf, to).await.map(|_| ()),
+            (AnyClient::W(c), 'c' | 'T', true) => c.call_with_formats(&path, qf, b, bf).await.map(|_| ()),
+            (AnyClient::W(c), 'm', false) => c.call_message_with_timeout(&path, to).await.map(|_| ()),
+            (AnyClient::W(c), 'm', true) => c.call_message(&path).await.map(|_| ()),
+            (AnyClient::W(c), _, _) => c.notify_with_formats(&path, qf, b, bf).await,
         }
     }
-    async fn batch(&self, reqs: Vec<(String, serde_json::Value)>) {
-        let to = Duration::from_millis(60);
+    async fn batch(&self, reqs: Vec<(String, serde_json::Value)>, ct: u64) {
+        let to = Duration::from_millis(ct);
         match self {
             AnyClient::A(c) => drop(c.batch_json_with_timeout(reqs, to).await),
             AnyClient::W(c) => drop(c.batch_json_with_timeout(reqs, to).await),
@@ -822,6 +1100,7 @@ fn run_async_client(sc: &Script) -> Result<Capture, String> {
             notes.push("sndbuf-not-set");
         }
         let rd = reader_thread(sock.try_clone().unwrap(), g.clone(), sc.chunk);
+        let ct = sc.o("ct", 60);
         let first: Vec<usize> = (0..sc.ws.len()).filter(|i| !is_follow(sc.ws[*i].kind)).collect();
         let later: Vec<usize> = (0..sc.ws.len()).filter(|i| is_follow(sc.ws[*i].kind)).collect();
         let done = Arc::new(AtomicUsize::new(0));
@@ -829,7 +1108,7 @@ fn run_async_client(sc: &Script) -> Result<Capture, String> {
         for &tag in &first {
             let (client, w, done) = (client.clone(), sc.ws[tag].clone(), done.clone());
             handles.push((tag, tokio::spawn(async move {
-                let _ = client.send(tag, &w).await;
+                let _ = client.send(tag, &w, ct).await;
                 done.fetch_add(1, SeqCst);
             })));
         }
@@ -864,7 +1143,7 @@ fn run_async_client(sc: &Script) -> Result<Capture, String> {
         let batch: Vec<(String, serde_json::Value)> = later
             .iter()
             .filter(|t| sc.ws[**t].kind == 'b')
-            .map(|&t| (String::from_utf8(query_of("/t/", t, sc.ws[t].qlen)).unwrap(), serde_json::Value::String(json_string(t as u64, sc.ws[t].size))))
+            .map(|&t| (sc.ws[t].path_str("/t/", t), serde_json::Value::String(json_string(t as u64, sc.ws[t].size))))
             .collect();
         let mut batch_sent = false;
         for &tag in &later {
@@ -873,9 +1152,17 @@ fn run_async_client(sc: &Script) -> Result<Capture, String> {
                     continue;
                 }
                 batch_sent = true;
-                tokio::time::timeout(WATCHDOG, client.batch(batch.clone())).await.is_ok()
+                tokio::time::timeout(WATCHDOG, client.batch(batch.clone(), ct)).await.is_ok()
+            } else if sc.ws[tag].tv == 1 {
+                // the twin without a timeout returns only when the connection ends: run it detached
+                let (c2, w2) = (client.clone(), sc.ws[tag].clone());
+                let h = tokio::spawn(async move {
+                    let _ = c2.send(tag, &w2, ct).await;
+                });
+                let _ = tokio::time::timeout(Duration::from_millis(150), h).await;
+                true
             } else {
-                tokio::time::timeout(WATCHDOG, client.send(tag, &sc.ws[tag])).await.is_ok()
+                tokio::time::timeout(WATCHDOG, client.send(tag, &sc.ws[tag], ct)).await.is_ok()
             };
             if !ok {
                 notes.push("writer-watchdog");
@@ -901,39 +1188,89 @@ fn run_async_client(sc: &Script) -> Result<Capture, String> {
     rt.shutdown_background();
     if is_ws {
         let c = ws_deframe(&raw);
-        Ok(Capture { rep: c.rep.clone(), ws: Some(c), notes })
+        Ok(Capture { second: None, rep: c.rep.clone(), ws: Some(c), notes })
     } else {
-        Ok(Capture { rep: raw, ws: None, notes })
+        Ok(Capture { second: None, rep: raw, ws: None, notes })
     }
 }
 
 // ---------------------------------------------------------------------------------------------
 // endpoints 3, 4, 5: servers
 // ---------------------------------------------------------------------------------------------
-struct Gen(u64);
-impl HandlerErased for Gen {
-    fn handle(&self, req: &Message) -> Result<Message, RepeError> {
-        let size = if req.body.len() >= 8 { u64::from_le_bytes(req.body[..8].try_into().unwrap()) as usize } else { 0 };
-        Ok(Message::builder().id(req.header.id).query_format_code(1).body_bytes(pat(self.0, size)).body_format_code(0).build())
+/// what a handler does besides answering (the `h` attribute)
+fn misbehave(hb: u8) -> Result<(), RepeError> {
+    match hb {
+        1 => Err(RepeError::ServerError { code: repe::ErrorCode::ApplicationErrorBase, message: "handler refused".into() }),
+        2 => panic!("{}", String::from("handler panicked (String)")),
+        3 => panic!("handler panicked (&str)"),
+        4 => std::panic::panic_any(42u32),
+        5 => {
+            std::thread::sleep(Duration::from_millis(30));
+            Ok(())
+        }
+        _ => Ok(()),
     }
 }
 
-/// routes `/g/<tag>` for every tag plus the long paths this script addresses
+struct Gen(u64);
+impl Gen {
+    fn answer(&self, req: &Message) -> Message {
+        let size = if req.body.len() >= 8 { u64::from_le_bytes(req.body[..8].try_into().unwrap()) as usize } else { 0 };
+        Message::builder().id(req.header.id).query_format_code(1).body_bytes(pat(self.0, size)).body_format_code(req.header.body_format).build()
+    }
+}
+impl HandlerErased for Gen {
+    fn handle(&self, req: &Message) -> Result<Message, RepeError> {
+        misbehave(req.body.get(8).copied().unwrap_or(0))?;
+        Ok(self.answer(req))
+    }
+    fn handle_with_ctx(&self, req: &Message, ctx: &repe::CallContext) -> Result<Message, RepeError> {
+        let hb = req.body.get(8).copied().unwrap_or(0);
+        if hb == 6 {
+            // re-enter the connection: push a notify to the calling peer before answering
+            if let Some(peer) = ctx.peer() {
+                let t = self.0 + 100;
+                let _ = peer.send_notify(&format!("/p/{}", t), NotifyBody::Raw(pat(t, 64), BodyFormat::RawBinary));
+            }
+        }
+        misbehave(hb)?;
+        Ok(self.answer(req))
+    }
+}
+
+fn off_reader_handler(tag: u64) -> impl Fn(serde_json::Value) -> Result<serde_json::Value, (repe::ErrorCode, String)> + Send + Sync + 'static {
+    move |v: serde_json::Value| {
+        let n = v.get("n").and_then(|x| x.as_u64()).unwrap_or(2) as usize;
+        let hb = v.get("h").and_then(|x| x.as_u64()).unwrap_or(0) as u8;
+        misbehave(hb).map_err(|_| (repe::ErrorCode::ApplicationErrorBase, "handler refused".to_string()))?;
+        Ok(serde_json::Value::String(json_string(tag, n.max(2))))
+    }
+}
+
+/// routes `/g/<tag>` and `/o/<tag>` (off-reader on the WebSocket server) for every tag, plus the special
+/// paths (long, non-ASCII) this script addresses
 fn gen_router(sc: Option<&Script>) -> Router {
     let mut r = Router::new();
     for tag in 0..64u64 {
         r = r.with_erased_handler(&format!("/g/{}", tag), Arc::new(Gen(tag)));
     }
     if let Some(sc) = sc {
-        for (tag, w) in sc.ws.iter().enumerate().filter(|(_, w)| w.qlen > 0 && (w.kind == 'r' || w.kind == 'q')) {
-            r = r.with_erased_handler(&String::from_utf8(query_of("/g/", tag, w.qlen)).unwrap(), Arc::new(Gen(tag as u64)));
+        for (tag, w) in sc.ws.iter().enumerate() {
+            if w.xr {
+                continue;
+            }
+            match w.kind {
+                'r' | 'q' if w.qlen > 0 || w.pv > 0 || tag >= 64 => r = r.with_erased_handler(&w.path_str("/g/", tag), Arc::new(Gen(tag as u64))),
+                'o' => r = r.with_json_blocking(&w.path_str("/o/", tag), off_reader_handler(tag as u64)),
+                _ => {}
+            }
         }
     }
     r
 }
 
 fn long_queries(sc: &Script) -> bool {
-    sc.ws.iter().any(|w| w.qlen > 0)
+    sc.ws.iter().enumerate().any(|(t, w)| w.qlen > 0 || w.pv > 0 || w.kind == 'o' || t >= 64) || sc.opt.contains_key("nd") || sc.opt.contains_key("rto")
 }
 
 /// the peer's requests go out on their own thread: with multi-MiB paths they do not fit the socket
@@ -951,13 +1288,71 @@ fn send_requests(mut sock: TcpStream, bytes: Vec<u8>, shutdown: bool) -> Arc<Ato
     done
 }
 
+fn request_frame(tag: usize, w: &Wr) -> Vec<u8> {
+    let off = w.kind == 'o';
+    let body: Vec<u8> = if off {
+        format!("{{\"h\":{},\"n\":{}}}", w.hb, w.size).into_bytes()
+    } else {
+        let mut b = (w.size as u64).to_le_bytes().to_vec();
+        b.push(w.hb);
+        b
+    };
+    let mut f = RawFrame::request(w.id.unwrap_or(1000 + tag as u64), w.kind == 'q', w.qf.unwrap_or(1), &w.path(if off { "/o/" } else { "/g/" }, tag), if off { 2 } else { w.bf.unwrap_or(0) }, &body);
+    if let Some(nb) = w.nb {
+        f.h.notify = nb;
+    }
+    if let Some(v) = w.ver {
+        f.h.version = v;
+    }
+    f.to_vec()
+}
+
 fn requests(sc: &Script) -> Vec<Vec<u8>> {
-    sc.ws
-        .iter()
-        .enumerate()
-        .filter(|(_, w)| w.kind == 'r' || w.kind == 'q')
-        .map(|(tag, w)| RawFrame::request(1000 + tag as u64, w.kind == 'q', 1, &query_of("/g/", tag, w.qlen), 0, &(w.size as u64).to_le_bytes()).to_vec())
-        .collect()
+    sc.ws.iter().enumerate().filter(|(_, w)| matches!(w.kind, 'r' | 'q' | 'o')).map(|(tag, w)| request_frame(tag, w)).collect()
+}
+
+/// A second connection to the same server instance: three small requests, read to EOF.
+fn second_connection(addr: SocketAddr, ws: bool) -> Option<Vec<u8>> {
+    let mut sock = TcpStream::connect(addr).ok()?;
+    if ws {
+        ws_handshake_as_client(&mut sock, "/ws").ok()?;
+    }
+    let mut bytes = Vec::new();
+    for (t, sz) in SECOND {
+        let f = request_frame(t, &Wr { kind: 'r', size: sz, ..Default::default() });
+        bytes.extend(if ws { ws_frame(2, &f, true) } else { f });
+    }
+    sock.write_all(&bytes).ok()?;
+    if ws {
+        // give the answers time to come back before closing from this side
+        let _ = sock.set_read_timeout(Some(Duration::from_millis(20)));
+        let mut raw = Vec::new();
+        let mut buf = [0u8; 65536];
+        let t0 = Instant::now();
+        let mut last = Instant::now();
+        let mut closed = false;
+        while t0.elapsed() < Duration::from_secs(5) {
+            match sock.read(&mut buf) {
+                Ok(0) => break,
+                Ok(n) => {
+                    raw.extend_from_slice(&buf[..n]);
+                    last = Instant::now();
+                }
+                Err(e) if matches!(e.kind(), std::io::ErrorKind::WouldBlock | std::io::ErrorKind::TimedOut) => {
+                    if !closed && last.elapsed() >= QUIET {
+                        let _ = sock.write_all(&ws_frame(8, &1000u16.to_be_bytes(), true));
+                        let _ = sock.shutdown(Shutdown::Write);
+                        closed = true;
+                    }
+                }
+                Err(_) => break,
+            }
+        }
+        Some(ws_deframe(&raw).rep)
+    } else {
+        let _ = sock.shutdown(Shutdown::Write);
+        Some(net::drain(&mut sock, 1 << 24, Duration::from_secs(3)))
+    }
 }
 
 /// one blocking `Server` per (send buffer, write timeout): `serve` never returns, so they are reused
@@ -978,7 +1373,8 @@ fn blocking_server_addr(buf: usize, wt: Option<u64>) -> SocketAddr {
 /// a script with long paths needs its own routes, hence its own (leaked) blocking server
 fn blocking_server_for(sc: &Script, wt: Option<u64>) -> SocketAddr {
     let (l, addr) = listener(0, sc.buf);
-    let server = Server::new(gen_router(Some(sc))).write_timeout(wt.map(Duration::from_millis));
+    let rto = sc.o("rto", 0);
+    let server = Server::new(gen_router(Some(sc))).write_timeout(wt.map(Duration::from_millis)).tcp_nodelay(sc.o("nd", 1) == 1).read_timeout((rto > 0).then(|| Duration::from_millis(rto)));
     std::thread::spawn(move || {
         let _ = server.serve(l);
     });
@@ -998,7 +1394,8 @@ fn run_tcp_server(sc: &Script) -> Result<Capture, String> {
         let (l, addr) = listener(0, sc.buf);
         l.set_nonblocking(true).map_err(|e| e.to_string())?;
         let r = runtime(sc.rt);
-        let server = AsyncServer::new(gen_router(Some(sc))).write_timeout(wt.map(Duration::from_millis));
+        let rto = sc.o("rto", 0);
+        let server = AsyncServer::new(gen_router(Some(sc))).write_timeout(wt.map(Duration::from_millis)).read_timeout((rto > 0).then(|| Duration::from_millis(rto)));
         r.spawn(async move {
             if let Ok(l) = tokio::net::TcpListener::from_std(l) {
                 let _ = server.serve(l).await;
@@ -1020,10 +1417,11 @@ fn run_tcp_server(sc: &Script) -> Result<Capture, String> {
     }
     g.stop.store(true, SeqCst);
     let rep = rd.join().map_err(|_| "reader panicked".to_string())?;
+    let second = if sc.o("conns", 1) == 2 { second_connection(addr, false) } else { None };
     if let Some(r) = rt {
         r.shutdown_background();
     }
-    Ok(Capture { rep, ws: None, notes })
+    Ok(Capture { second, rep, ws: None, notes })
 }
 
 fn run_ws_server(sc: &Script) -> Result<Capture, String> {
@@ -1032,8 +1430,22 @@ fn run_ws_server(sc: &Script) -> Result<Capture, String> {
     l.set_nonblocking(true).map_err(|e| e.to_string())?;
     let rt = runtime(sc.rt);
     let reg = PeerRegistry::new();
-    let limits = WebSocketLimits::default().with_assumed_peer_frame_limit(Some(64 << 20));
-    let server = WebSocketServer::new(gen_router(Some(sc))).with_peer_registry(reg.clone()).with_outbound_capacity(16).with_limits(limits);
+    let lim = sc.o("lim", 0) as usize;
+    let limits = WebSocketLimits::default().with_assumed_peer_frame_limit(Some(if lim > 0 { lim } else { 64 << 20 }));
+    let mut server = WebSocketServer::new(gen_router(Some(sc))).with_peer_registry(reg.clone()).with_outbound_capacity(sc.o("cap", 16).max(1) as usize).with_limits(limits);
+    if let Some(off) = sc.opt.get("off") {
+        server = server.with_offreader_limit(*off as usize);
+    }
+    // notifies pushed from the connect hook (they are queued before the reader and writer start)
+    let hooked: Vec<(String, usize, usize)> = sc.ws.iter().enumerate().filter(|(_, w)| w.kind == 'h').map(|(t, w)| (w.path_str("/p/", t), t, w.size)).collect();
+    if !hooked.is_empty() {
+        server = server.on_peer_connect(move |peer| {
+            for (m, t, size) in &hooked {
+                let _ = peer.send_notify(m, NotifyBody::Raw(pat(*t as u64, *size), BodyFormat::RawBinary));
+            }
+        });
+    }
+    let via_shared = sc.o("via", 0) == 1;
     let (sd_tx, sd_rx) = tokio::sync::oneshot::channel::<()>();
     let drain = match sc.fault {
         Fault::Drain(t) => Some(t),
@@ -1044,6 +1456,28 @@ fn run_ws_server(sc: &Script) -> Result<Capture, String> {
         let sd = async move {
             let _ = sd_rx.await;
         };
+        if via_shared {
+            // the embedder's own accept loop: `SharedWebSocketServer::accept` + `serve_connection_with_cancel`
+            let shared = server.into_shared();
+            let token = repe::ShutdownToken::new();
+            tokio::pin!(sd);
+            loop {
+                tokio::select! {
+                    acc = l.accept() => {
+                        let Ok((stream, _)) = acc else { break };
+                        let (shared, token) = (shared.clone(), token.clone());
+                        tokio::spawn(async move {
+                            if let Ok(ws) = shared.accept(stream, "/ws").await {
+                                let _ = shared.serve_connection_with_cancel(ws, &token).await;
+                            }
+                        });
+                    }
+                    _ = &mut sd => break,
+                }
+            }
+            token.cancel();
+            return;
+        }
         match drain {
             Some(t) => {
                 let _ = server.serve_listener_with_graceful_drain(l, "/ws", sd, Duration::from_millis(t)).await;
@@ -1067,7 +1501,7 @@ fn run_ws_server(sc: &Script) -> Result<Capture, String> {
     let barrier = Arc::new(Barrier::new(pushers.len() + 1));
     for &tag in &pushers {
         let (reg, size, done, stop, barrier) = (reg.clone(), sc.ws[tag].size, done.clone(), stop.clone(), barrier.clone());
-        let method = String::from_utf8(query_of("/p/", tag, sc.ws[tag].qlen)).unwrap();
+        let method = sc.ws[tag].path_str("/p/", tag);
         let broadcast = sc.ws[tag].kind == 'B';
         std::thread::spawn(move || {
             let peer = reg.peers().into_iter().next();
@@ -1124,9 +1558,10 @@ fn run_ws_server(sc: &Script) -> Result<Capture, String> {
     }
     g.stop.store(true, SeqCst);
     let raw = rd.join().map_err(|_| "reader panicked".to_string())?;
+    let second = if sc.o("conns", 1) == 2 && drain.is_none() { second_connection(addr, true) } else { None };
     rt.shutdown_background();
     let c = ws_deframe(&raw);
-    Ok(Capture { rep: c.rep.clone(), ws: Some(c), notes })
+    Ok(Capture { second, rep: c.rep.clone(), ws: Some(c), notes })
 }
 
 // ---------------------------------------------------------------------------------------------
@@ -1181,7 +1616,16 @@ fn run_ws_proxy(sc: &Script) -> Result<Capture, String> {
     let raw = rd.join().map_err(|_| "reader panicked".to_string())?;
     rt.shutdown_background();
     let c = ws_deframe(&raw);
-    Ok(Capture { rep: c.rep.clone(), ws: Some(c), notes })
+    Ok(Capture { second: None, rep: c.rep.clone(), ws: Some(c), notes })
+}
+
+/// the timeout a client call is made with (`t` attribute of the writer, `ct` knob of the script)
+fn call_timeout(w: &Wr, ct: u64) -> Duration {
+    match w.tv {
+        2 => Duration::ZERO,
+        3 => Duration::from_millis(1),
+        _ => Duration::from_millis(if w.kind == 'c' { ct.max(150) } else { ct }),
+    }
 }
 
 fn fault_name(f: &Fault) -> &'static str {
@@ -1231,8 +1675,8 @@ fn exec(out: &mut Out, line: &str) -> (String, String, bool) {
     let p = analyse(&cap.rep, &exps);
     let sig_base = format!("torn.{}.{}", ep, fault_name(&sc.fault));
     let recline = {
-        let fr: Vec<String> = p.frames.iter().map(|(t, id)| format!("{}:{}", t, id)).collect();
-        let torn = p.torn.map(|(t, id, k)| format!("{}:{}:{}", t, id, k)).unwrap_or_else(|| "-".into());
+        let fr: Vec<String> = p.frames.iter().map(|(t, id, o)| match o { Some(l) => format!("{}:{}:{}", t, id, l), None => format!("{}:{}", t, id) }).collect();
+        let torn = p.torn.map(|(t, id, k, o)| match o { Some(l) => format!("{}:{}:{}:{}", t, id, k, l), None => format!("{}:{}:{}", t, id, k) }).unwrap_or_else(|| "-".into());
         let seen: Vec<usize> = p.frames.iter().map(|x| x.0).chain(p.torn.iter().map(|x| x.0)).collect();
         let att: Vec<String> = exps.iter().filter(|e| !seen.contains(&e.tag)).map(|e| e.tag.to_string()).collect();
         let j = |v: Vec<String>| if v.is_empty() { "-".to_string() } else { v.join(",") };
@@ -1259,7 +1703,18 @@ fn exec(out: &mut Out, line: &str) -> (String, String, bool) {
     }
     out.add("frames-whole", p.frames.len() as u64);
     out.add("bytes-captured", cap.rep.len() as u64);
-    let digest = if cap.rep.len() <= DIGEST_CAP { format!("{:016x}", fnv(&cap.rep)) } else { "-".to_string() };
+    // frames whose bytes the model cannot produce (error responses, BEVE bodies) are opaque to it: no digest then
+    let opaque = p.frames.iter().any(|f| f.2.is_some()) || p.torn.map_or(false, |t| t.3.is_some());
+    let digest = if cap.rep.len() <= DIGEST_CAP && !opaque { format!("{:016x}", fnv(&cap.rep)) } else { "-".to_string() };
+    // a second connection to the same server instance must be served as by a fresh server
+    if let Some(second) = &cap.second {
+        let ws2: Vec<Wr> = SECOND.iter().map(|(t, sz)| (*t, Wr { kind: 'r', size: *sz, ..Default::default() })).fold(vec![Wr { kind: 'q', size: 0, ..Default::default() }; 64], |mut v, (t, w)| { v[t] = w; v });
+        let p2 = analyse(second, &expected_frames(sc.ep, &ws2));
+        out.count("second-connection");
+        if let Some((kind, detail)) = &p2.viol {
+            out.oracle_fail(&format!("{}.second_connection.{}", sig_base, kind), &format!("{} (second connection to the same server): {}", ep, detail), &[sc.line()]);
+        }
+    }
     let obs = format!(
         "{} frames {} torn {} after {} len {} fnv {}",
         sc.idx,
@@ -1290,17 +1745,118 @@ fn pick_size(r: &mut Rng, max: usize) -> usize {
 fn kinds_for(ep: usize, r: &mut Rng) -> char {
     match ep {
         0..=2 => if r.chance(1, 4) { 'c' } else { 'n' },
-        3 | 4 | 6 => if r.chance(1, 8) { 'q' } else { 'r' },
-        _ => match r.below(8) { 0 => 'q', 1 | 2 => 'p', 3 => 'B', _ => 'r' },
+        3 | 4 | 6 => match r.below(16) { 0 | 1 => 'q', 2 => 'o', _ => 'r' },
+        _ => match r.below(16) { 0 | 1 => 'q', 2..=4 => 'p', 5 | 6 => 'B', 7 | 8 => 'o', _ => 'r' },
     }
 }
 
 fn fault_for(ep: usize, r: &mut Rng) -> Fault {
     match ep {
-        0 | 3 | 4 => Fault::WTimeout(*r.pick(&[30u64, 60, 100])),
+        0 | 3 | 4 => Fault::WTimeout(*r.pick(&[30u64, 60, 100, 30, 60, 1, 5, 400])),
         1 | 2 => Fault::Cancel(-1),
         6 => Fault::None,
         _ => Fault::Drain(*r.pick(&[30u64, 80])),
+    }
+}
+
+/// Vary what the fixed shapes hold constant: format codes, ids, notify bytes, path variants, body `None`,
+/// timeout twins, handler behaviour, request version / route, and the knobs of the script (`opt`).
+fn spice(r: &mut Rng, sc: &mut Script) {
+    let ep = sc.ep;
+    let codes = [0u16, 1, 2, 3, 4095, 4096, 65535];
+    let mut empty_path_used = false;
+    let mut panics = 0;
+    for w in sc.ws.iter_mut() {
+        match (ep, w.kind) {
+            (0..=2, 'c' | 'n' | 't' | 'T' | 'f' | 'F') => {
+                if r.chance(1, 5) {
+                    w.qf = Some(*r.pick(&codes));
+                }
+                if r.chance(1, 4) {
+                    w.bf = Some(*r.pick(&codes));
+                }
+                if w.size == 0 && w.kind != 'f' && w.kind != 'F' && r.chance(1, 2) {
+                    w.zb = true;
+                }
+                if (w.kind == 'f' || w.kind == 'F') && r.chance(1, 2) {
+                    w.id = Some(*r.pick(&[0u64, 1, 2, u64::MAX, 1 << 32]));
+                }
+                if (w.kind == 'f' || w.kind == 'F') && r.chance(1, 3) {
+                    w.nb = Some(*r.pick(&[0u8, 1, 2, 255]));
+                }
+            }
+            (3..=6, 'r' | 'o') => {
+                if r.chance(1, 6) {
+                    w.id = Some(*r.pick(&[0u64, 1, u64::MAX, 1 << 63]));
+                }
+                if r.chance(1, 8) {
+                    w.nb = Some(*r.pick(&[0u8, 2, 255, 1]));
+                }
+                if w.kind == 'r' && r.chance(1, 5) {
+                    w.bf = Some(*r.pick(&codes));
+                }
+                if r.chance(1, 6) {
+                    w.hb = *r.pick(&[1u8, 5, 6, 5, 1, 2, 3, 4]);
+                    // a panicking inline handler ends the connection: at most one per script
+                    if (2..=4).contains(&w.hb) {
+                        panics += 1;
+                        if panics > 1 {
+                            w.hb = 5;
+                        }
+                    }
+                }
+                if r.chance(1, 20) {
+                    w.ver = Some(*r.pick(&[0u8, 2, 255]));
+                }
+                if r.chance(1, 20) {
+                    w.xr = true;
+                }
+                if r.chance(1, 24) {
+                    w.qf = Some(*r.pick(&[0u16, 2, 65535]));
+                }
+            }
+            _ => {}
+        }
+        if matches!(w.kind, 'c' | 'n' | 't' | 'T' | 'j' | 'J' | 'r' | 'o' | 'p') && !w.xr {
+            if r.chance(1, 8) {
+                w.pv = 1;
+            } else if ep <= 2 && !empty_path_used && w.qlen == 0 && r.chance(1, 24) {
+                w.pv = 2;
+                empty_path_used = true;
+            }
+        }
+        if is_follow(w.kind) && matches!(w.kind, 'T' | 'J' | 'Y' | 'V' | 'm' | 'F') && r.chance(1, 3) {
+            w.tv = *r.pick(&[1u8, 2, 3]);
+        }
+    }
+    for w in sc.ws.iter_mut() {
+        if w.kind == 'o' {
+            w.size = w.size.max(2);
+            w.qlen = w.qlen.min(4000);
+        }
+    }
+    let mut set = |r: &mut Rng, k: &str, vals: &[u64], num: u64, den: u64| {
+        if r.chance(num, den) {
+            sc.opt.insert(k.to_string(), *r.pick(vals));
+        }
+    };
+    match ep {
+        0..=2 => set(r, "ct", &[0, 1, 20, 200], 1, 3),
+        3 | 4 => {
+            set(r, "rto", &[2000, 10000], 1, 4);
+            if ep == 3 {
+                set(r, "nd", &[0], 1, 4);
+            }
+            set(r, "conns", &[2], 1, 2);
+        }
+        5 => {
+            set(r, "cap", &[1, 2, 256], 1, 2);
+            set(r, "via", &[1], 1, 3);
+            set(r, "conns", &[2], 1, 2);
+            set(r, "off", &[0, 1, 2], 1, 3);
+            set(r, "lim", &[9000, 70000, 1 << 20], 1, 5);
+        }
+        _ => {}
     }
 }
 
@@ -1315,6 +1871,11 @@ fn gen_scripts(r: &mut Rng, thorough: bool) -> Vec<Script> {
     let mut push = |v: &mut Vec<Script>, mut s: Script| {
         s.idx = format!("s{}", k);
         k += 1;
+        for w in s.ws.iter_mut() {
+            if w.kind == 'o' {
+                w.size = w.size.max(2);
+            }
+        }
         // after a cancel, "the next calls" are issued
         if let Fault::Cancel(_) = s.fault {
             let n = s.ws.len();
@@ -1324,7 +1885,7 @@ fn gen_scripts(r: &mut Rng, thorough: bool) -> Vec<Script> {
                 for j in 0..4 {
                     let kd = kinds[(k + j * 3) % kinds.len()];
                     let size = if kd == 'm' { 0 } else if j % 2 == 0 { 300 } else { 70000 };
-                    s.ws.push(Wr { kind: kd, size, qlen: 0 });
+                    s.ws.push(Wr { kind: kd, size, qlen: 0, ..Default::default() });
                 }
             }
         }
@@ -1333,103 +1894,186 @@ fn gen_scripts(r: &mut Rng, thorough: bool) -> Vec<Script> {
     for ep in 0..7usize {
         let big = 1usize << 20;
         // 1. many writers, small and medium frames, peer stalls from the first byte, tiny reads
-        let ws: Vec<Wr> = (0..32).map(|_| Wr { kind: kinds_for(ep, r), size: pick_size(r, 70000), qlen: 0 }).collect();
-        push(&mut v, Script { idx: String::new(), ep, buf: small, rt: 2, chunk: 997, stall_at: 0, stall_ms: 120, fault: Fault::None, ws });
+        let ws: Vec<Wr> = (0..32).map(|_| Wr { kind: kinds_for(ep, r), size: pick_size(r, 70000), qlen: 0, ..Default::default() }).collect();
+        push(&mut v, Script { idx: String::new(), ep, buf: small, rt: 2, chunk: 997, stall_at: 0, stall_ms: 120, fault: Fault::None, opt: Default::default(), ws });
         // 2. sizes straddling the 8 KiB BufWriter and the 128 KiB tungstenite buffer, one 1 MiB frame, stall inside
-        let mut ws: Vec<Wr> = [8143usize, 8144, 8145, 8192, 131017, 131072, 131073].iter().map(|s| Wr { kind: kinds_for(ep, r), size: *s, qlen: 0 }).collect();
-        ws.push(Wr { kind: kinds_for(ep, r), size: big + 1, qlen: 0 });
+        let mut ws: Vec<Wr> = [8143usize, 8144, 8145, 8192, 131017, 131072, 131073].iter().map(|s| Wr { kind: kinds_for(ep, r), size: *s, qlen: 0, ..Default::default() }).collect();
+        ws.push(Wr { kind: kinds_for(ep, r), size: big + 1, qlen: 0, ..Default::default() });
         r.shuffle(&mut ws);
-        push(&mut v, Script { idx: String::new(), ep, buf: 65536, rt: 2, chunk: 65536, stall_at: r.below(600000), stall_ms: 150, fault: Fault::None, ws });
+        push(&mut v, Script { idx: String::new(), ep, buf: 65536, rt: 2, chunk: 65536, stall_at: r.below(600000), stall_ms: 150, fault: Fault::None, opt: Default::default(), ws });
         // 3. a few multi-MiB frames through default kernel buffers
-        let ws: Vec<Wr> = (0..3).map(|_| Wr { kind: kinds_for(ep, r), size: big + r.below(2 * big as u64) as usize, qlen: 0 }).collect();
-        push(&mut v, Script { idx: String::new(), ep, buf: 0, rt: 1, chunk: 65536, stall_at: r.below(big as u64), stall_ms: 80, fault: Fault::None, ws });
+        let ws: Vec<Wr> = (0..3).map(|_| Wr { kind: kinds_for(ep, r), size: big + r.below(2 * big as u64) as usize, qlen: 0, ..Default::default() }).collect();
+        push(&mut v, Script { idx: String::new(), ep, buf: 0, rt: 1, chunk: 65536, stall_at: r.below(big as u64), stall_ms: 80, fault: Fault::None, opt: Default::default(), ws });
         // 4. the fault while a frame much larger than every buffer is being written
-        let mut ws = vec![Wr { kind: kinds_for(ep, r), size: big, qlen: 0 }, Wr { kind: kinds_for(ep, r), size: 100000, qlen: 0 }];
-        ws.extend((0..4).map(|_| Wr { kind: kinds_for(ep, r), size: pick_size(r, 9000), qlen: 0 }));
+        let mut ws = vec![Wr { kind: kinds_for(ep, r), size: big, qlen: 0, ..Default::default() }, Wr { kind: kinds_for(ep, r), size: 100000, qlen: 0, ..Default::default() }];
+        ws.extend((0..4).map(|_| Wr { kind: kinds_for(ep, r), size: pick_size(r, 9000), qlen: 0, ..Default::default() }));
         if ep == 5 {
             ws[0].kind = 'r';
         }
-        push(&mut v, Script { idx: String::new(), ep, buf: small, rt: 2, chunk: 65536, stall_at: 0, stall_ms: 450, fault: fault_for(ep, r), ws });
+        // (servers: followed by a second connection to the same server instance)
+        let mut opt = std::collections::BTreeMap::new();
+        if ep == 3 || ep == 4 {
+            opt.insert("conns".to_string(), 2u64);
+        }
+        push(&mut v, Script { idx: String::new(), ep, buf: small, rt: 2, chunk: 65536, stall_at: 0, stall_ms: 450, fault: fault_for(ep, r), opt, ws });
         // 5. the fault after some whole frames went through
-        let mut ws: Vec<Wr> = (0..3).map(|_| Wr { kind: kinds_for(ep, r), size: pick_size(r, 3000), qlen: 0 }).collect();
-        ws.extend((0..3).map(|_| Wr { kind: kinds_for(ep, r), size: 300000 + r.below(400000) as usize, qlen: 0 }));
-        ws.extend((0..3).map(|_| Wr { kind: kinds_for(ep, r), size: pick_size(r, 20000), qlen: 0 }));
+        let mut ws: Vec<Wr> = (0..3).map(|_| Wr { kind: kinds_for(ep, r), size: pick_size(r, 3000), qlen: 0, ..Default::default() }).collect();
+        ws.extend((0..3).map(|_| Wr { kind: kinds_for(ep, r), size: 300000 + r.below(400000) as usize, qlen: 0, ..Default::default() }));
+        ws.extend((0..3).map(|_| Wr { kind: kinds_for(ep, r), size: pick_size(r, 20000), qlen: 0, ..Default::default() }));
         // (clients: only the largest call is abandoned, the other callers carry on)
         let fault = match fault_for(ep, r) {
             Fault::Cancel(_) => Fault::Cancel(argmax(&ws)),
             f => f,
         };
-        push(&mut v, Script { idx: String::new(), ep, buf: small, rt: 1, chunk: 4096, stall_at: 2000 + r.below(500000), stall_ms: 400, fault, ws });
+        push(&mut v, Script { idx: String::new(), ep, buf: small, rt: 1, chunk: 4096, stall_at: 2000 + r.below(500000), stall_ms: 400, fault, opt: Default::default(), ws });
         // 6. the fault with 16 medium writers
-        let ws: Vec<Wr> = (0..16).map(|_| Wr { kind: kinds_for(ep, r), size: 60000 + r.below(200000) as usize, qlen: 0 }).collect();
-        push(&mut v, Script { idx: String::new(), ep, buf: small, rt: 4, chunk: 65536, stall_at: r.below(300000), stall_ms: 400, fault: fault_for(ep, r), ws });
+        let ws: Vec<Wr> = (0..16).map(|_| Wr { kind: kinds_for(ep, r), size: 60000 + r.below(200000) as usize, qlen: 0, ..Default::default() }).collect();
+        push(&mut v, Script { idx: String::new(), ep, buf: small, rt: 4, chunk: 65536, stall_at: r.below(300000), stall_ms: 400, fault: fault_for(ep, r), opt: Default::default(), ws });
         // 7. the fault configured but every frame fits the buffers (nothing may be torn)
-        let ws: Vec<Wr> = (0..8).map(|_| Wr { kind: kinds_for(ep, r), size: pick_size(r, 900), qlen: 0 }).collect();
-        push(&mut v, Script { idx: String::new(), ep, buf: 65536, rt: 2, chunk: 100, stall_at: 0, stall_ms: 150, fault: fault_for(ep, r), ws });
+        let ws: Vec<Wr> = (0..8).map(|_| Wr { kind: kinds_for(ep, r), size: pick_size(r, 900), qlen: 0, ..Default::default() }).collect();
+        push(&mut v, Script { idx: String::new(), ep, buf: 65536, rt: 2, chunk: 100, stall_at: 0, stall_ms: 150, fault: fault_for(ep, r), opt: Default::default(), ws });
         // 8. clients: one frame far larger than the buffers is certainly in progress when the fault hits;
         //    the next frame is offered through each emission entry point in turn (first in line), then the others
         if ep <= 2 {
             let all: Vec<char> = FOLLOW.chars().filter(|c| ep == 1 || (*c != 'f' && *c != 'F')).collect();
             let firsts: Vec<char> = if ep == 2 && !thorough { vec!['t', 'J', 'b'] } else { all.clone() };
             for (j, kd) in firsts.iter().enumerate() {
-                let mut ws = vec![Wr { kind: 'n', size: 300000 + 1000 * j, qlen: 0 }];
+                let mut ws = vec![Wr { kind: 'n', size: 300000 + 1000 * j, qlen: 0, ..Default::default() }];
                 let mut order = vec![*kd];
                 order.extend(all.iter().filter(|c| *c != kd).cycle().skip(j).take(3));
                 for (x, c) in order.iter().enumerate() {
                     let size = if *c == 'm' { 0 } else if x % 2 == 0 { 200 + 13 * j } else { 20000 };
-                    ws.push(Wr { kind: *c, size, qlen: if x == 1 { 300 } else { 0 } });
+                    ws.push(Wr { kind: *c, size, qlen: if x == 1 { 300 } else { 0 }, ..Default::default() });
                 }
                 let (fault, stall_ms) = if ep == 0 { (Fault::WTimeout(30), 100) } else { (Fault::Cancel(-1), 40) };
-                push(&mut v, Script { idx: String::new(), ep, buf: small, rt: 2, chunk: 65536, stall_at: 0, stall_ms, fault, ws });
+                push(&mut v, Script { idx: String::new(), ep, buf: small, rt: 2, chunk: 65536, stall_at: 0, stall_ms, fault, opt: Default::default(), ws });
             }
         }
         if ep == 1 {
             // a relayed notify right behind an abandoned call, stall point inside the big frame
-            let ws = vec![Wr { kind: 'c', size: 500000, qlen: 0 }, Wr { kind: 'f', size: 100, qlen: 0 }, Wr { kind: 't', size: 300, qlen: 0 }, Wr { kind: 'F', size: 20000, qlen: 0 }];
-            push(&mut v, Script { idx: String::new(), ep, buf: small, rt: 1, chunk: 4096, stall_at: 6000, stall_ms: 60, fault: Fault::Cancel(0), ws });
+            let ws = vec![Wr { kind: 'c', size: 500000, qlen: 0, ..Default::default() }, Wr { kind: 'f', size: 100, qlen: 0, ..Default::default() }, Wr { kind: 't', size: 300, qlen: 0, ..Default::default() }, Wr { kind: 'F', size: 20000, qlen: 0, ..Default::default() }];
+            push(&mut v, Script { idx: String::new(), ep, buf: small, rt: 1, chunk: 4096, stall_at: 6000, stall_ms: 60, fault: Fault::Cancel(0), opt: Default::default(), ws });
         }
         // 9. servers: echoed queries larger than the send buffer (the response's header+query alone exceed
         //    what the socket takes in one write), no stall at all
         if ep >= 3 {
             let qmax = if thorough { 6 << 20 } else { 1 << 20 };
             let ws = vec![
-                Wr { kind: 'r', size: 5000, qlen: 65536 },
-                Wr { kind: 'r', size: 16, qlen: 200000 + r.below(100000) as usize },
-                Wr { kind: 'r', size: 100, qlen: 0 },
-                Wr { kind: 'r', size: 9000, qlen: qmax },
-                Wr { kind: if ep == 5 { 'p' } else { 'r' }, size: 70000, qlen: 3000 },
-                Wr { kind: 'r', size: 0, qlen: 70001 },
-                Wr { kind: 'r', size: 20000, qlen: 8192 },
+                Wr { kind: 'r', size: 5000, qlen: 65536, ..Default::default() },
+                Wr { kind: 'r', size: 16, qlen: 200000 + r.below(100000) as usize, ..Default::default() },
+                Wr { kind: 'r', size: 100, qlen: 0, ..Default::default() },
+                Wr { kind: 'r', size: 9000, qlen: qmax, ..Default::default() },
+                Wr { kind: if ep == 5 { 'p' } else { 'r' }, size: 70000, qlen: 3000, ..Default::default() },
+                Wr { kind: 'r', size: 0, qlen: 70001, ..Default::default() },
+                Wr { kind: 'r', size: 20000, qlen: 8192, ..Default::default() },
             ];
-            push(&mut v, Script { idx: String::new(), ep, buf: small, rt: 2, chunk: 65536, stall_at: 0, stall_ms: 0, fault: Fault::None, ws: ws.clone() });
-            push(&mut v, Script { idx: String::new(), ep, buf: if thorough { 0 } else { 65536 }, rt: 1, chunk: 65536, stall_at: 100000, stall_ms: 50, fault: Fault::None, ws });
+            push(&mut v, Script { idx: String::new(), ep, buf: small, rt: 2, chunk: 65536, stall_at: 0, stall_ms: 0, fault: Fault::None, opt: Default::default(), ws: ws.clone() });
+            push(&mut v, Script { idx: String::new(), ep, buf: if thorough { 0 } else { 65536 }, rt: 1, chunk: 65536, stall_at: 100000, stall_ms: 50, fault: Fault::None, opt: Default::default(), ws });
             // 10. the peer stalls until the send buffer is full, then drains in small reads while responses
             //     of 8-30 KiB with moderately long queries are written: short writes end anywhere in a frame
             for buf in [small, 16384] {
-                let ws: Vec<Wr> = (0..24).map(|_| Wr { kind: 'r', size: 4000 + r.below(22000) as usize, qlen: 200 + r.below(7000) as usize }).collect();
-                push(&mut v, Script { idx: String::new(), ep, buf, rt: 2, chunk: 700 + r.below(3000) as usize, stall_at: r.below(30000), stall_ms: 60, fault: Fault::None, ws });
+                let ws: Vec<Wr> = (0..24).map(|_| Wr { kind: 'r', size: 4000 + r.below(22000) as usize, qlen: 200 + r.below(7000) as usize, ..Default::default() }).collect();
+                push(&mut v, Script { idx: String::new(), ep, buf, rt: 2, chunk: 700 + r.below(3000) as usize, stall_at: r.below(30000), stall_ms: 60, fault: Fault::None, opt: Default::default(), ws });
             }
+        }
+        // 11. parameters the other shapes hold constant, at their boundaries
+        let w0 = |kind: char, size: usize| Wr { kind, size, ..Default::default() };
+        if ep <= 2 {
+            let mut ws = vec![
+                Wr { qf: Some(0), bf: Some(65535), ..w0('n', 100) },
+                Wr { qf: Some(65535), bf: Some(4096), ..w0('c', 9000) },
+                Wr { pv: 1, ..w0('n', 20000) },
+                Wr { pv: 2, ..w0('c', 70) },
+                Wr { zb: true, ..w0('n', 0) },
+                Wr { pv: 1, qlen: 5000, ..w0('c', 0) },
+                Wr { tv: 1, ..w0('T', 300) },
+                Wr { tv: 2, ..w0('J', 40) },
+                Wr { tv: 3, ..w0('Y', 9000) },
+                Wr { tv: 1, ..w0('m', 0) },
+                w0('v', 10),
+                Wr { tv: 1, ..w0('V', 3000) },
+            ];
+            if ep == 1 {
+                ws.push(Wr { id: Some(0), nb: Some(2), ..w0('f', 100) });
+                ws.push(Wr { id: Some(u64::MAX), nb: Some(255), tv: 3, ..w0('F', 9000) });
+                ws.push(Wr { id: Some(1), nb: Some(0), ..w0('f', 10) });
+                ws.push(Wr { tv: 1, ..w0('F', 100) });
+            }
+            // a batch larger than the 64 batch workers
+            ws.extend((0..70).map(|j| w0('b', 2 + j)));
+            let mut opt = std::collections::BTreeMap::new();
+            opt.insert("ct".to_string(), *r.pick(&[1u64, 20, 60]));
+            push(&mut v, Script { idx: String::new(), ep, buf: 65536, rt: 2, chunk: 65536, stall_at: 0, stall_ms: 30, fault: Fault::None, opt, ws });
+        } else {
+            // 12. what a handler can do: fail, be slow, re-enter the connection, panic (three payload kinds);
+            //     requests that are refused (version, route, query format), ids and notify bytes at the edges;
+            //     then a second connection to the same server
+            let mut ws = vec![
+                Wr { hb: 5, ..w0('r', 9000) },
+                Wr { hb: 1, ..w0('r', 100) },
+                Wr { hb: 6, ..w0('r', 20000) },
+                Wr { id: Some(0), nb: Some(2), ..w0('r', 300) },
+                Wr { id: Some(u64::MAX), nb: Some(255), bf: Some(65535), ..w0('r', 8144) },
+                Wr { ver: Some(2), ..w0('r', 50) },
+                Wr { xr: true, ..w0('r', 50) },
+                Wr { qf: Some(0), ..w0('r', 50) },
+                Wr { pv: 1, ..w0('r', 70000) },
+                Wr { nb: Some(1), ..w0('r', 4000) },
+                w0('o', 5000),
+                Wr { hb: 1, ..w0('o', 10) },
+                Wr { hb: 5, ..w0('o', 70000) },
+            ];
+            if ep == 5 {
+                ws.push(w0('h', 3000));
+                ws.push(w0('h', 0));
+                ws.push(Wr { hb: 2, ..w0('o', 100) });
+                ws.push(Wr { hb: 3, ..w0('o', 100) });
+                ws.push(Wr { hb: 4, ..w0('o', 100) });
+                ws.push(w0('B', 9000));
+                // pushes and a response above the assumed peer limit set below
+                ws.push(w0('p', 30000));
+                ws.push(w0('B', 25000));
+            }
+            ws.push(w0('r', 131073));
+            // the panicking inline handler comes last but one: it ends a TCP connection
+            ws.push(Wr { hb: *r.pick(&[2u8, 3, 4]), ..w0('r', 100) });
+            ws.push(w0('r', 600));
+            let mut opt = std::collections::BTreeMap::new();
+            opt.insert("conns".to_string(), 2);
+            if ep == 5 {
+                opt.insert("cap".to_string(), *r.pick(&[1u64, 4]));
+                opt.insert("via".to_string(), r.below(2));
+                opt.insert("off".to_string(), *r.pick(&[0u64, 2]));
+                opt.insert("lim".to_string(), 20000 + r.below(4000));
+            }
+            if ep == 3 {
+                opt.insert("nd".to_string(), 0);
+                opt.insert("rto".to_string(), 5000);
+            }
+            push(&mut v, Script { idx: String::new(), ep, buf: small, rt: 2, chunk: 4096, stall_at: r.below(20000), stall_ms: 60, fault: Fault::None, opt, ws });
         }
         // random scripts
         let n_random = if thorough { 60 } else { 3 };
         for _ in 0..n_random {
             let n = 1 + r.below(32) as usize;
             let budget: usize = if thorough { 6 << 20 } else { 2 << 20 };
-            let ws: Vec<Wr> = (0..n).map(|_| Wr { kind: kinds_for(ep, r), size: pick_size(r, budget / n), qlen: if r.chance(1, 4) { 60 + pick_size(r, (budget / n).min(300000)) } else { 0 } }).collect();
+            let ws: Vec<Wr> = (0..n).map(|_| Wr { kind: kinds_for(ep, r), size: pick_size(r, budget / n), qlen: if r.chance(1, 4) { 60 + pick_size(r, (budget / n).min(300000)) } else { 0 }, ..Default::default() }).collect();
             let total: u64 = ws.iter().map(|w| (w.size + w.qlen) as u64 + 60).sum();
             let fault = match if r.chance(1, 2) { fault_for(ep, r) } else { Fault::None } {
                 Fault::Cancel(_) if r.chance(1, 2) => Fault::Cancel(argmax(&ws)),
                 f => f,
             };
             let stall_ms = if fault == Fault::None { 50 + r.below(150) } else { 300 + r.below(200) };
-            push(&mut v, Script { idx: String::new(), ep, buf: *r.pick(&[small, small, 16384, 65536, 0]), rt: 1 + r.below(4) as usize, chunk: *r.pick(&[1usize << 16, 1 << 16, 4096, 1000, 61]), stall_at: r.below(total + 1), stall_ms, fault, ws });
+            let mut sc = Script { idx: String::new(), ep, buf: *r.pick(&[small, small, 16384, 65536, 0]), rt: 1 + r.below(4) as usize, chunk: *r.pick(&[1usize << 16, 1 << 16, 4096, 1000, 61]), stall_at: r.below(total + 1), stall_ms, fault, opt: Default::default(), ws };
+            spice(r, &mut sc);
+            push(&mut v, sc);
         }
         if thorough {
             // 32 MiB frames through default buffers (the stall point is past the kernel's ~4 MB of slack)
             let huge = 32usize << 20;
-            let ws = vec![Wr { kind: kinds_for(ep, r), size: 5000, qlen: 0 }, Wr { kind: if ep >= 3 { 'r' } else { kinds_for(ep, r) }, size: huge, qlen: 0 }, Wr { kind: kinds_for(ep, r), size: 70000, qlen: 0 }];
-            push(&mut v, Script { idx: String::new(), ep, buf: 0, rt: 2, chunk: 65536, stall_at: 1 << 20, stall_ms: 400, fault: fault_for(ep, r), ws: ws.clone() });
-            push(&mut v, Script { idx: String::new(), ep, buf: 0, rt: 2, chunk: 65536, stall_at: 9 << 20, stall_ms: 200, fault: Fault::None, ws });
+            let ws = vec![Wr { kind: kinds_for(ep, r), size: 5000, qlen: 0, ..Default::default() }, Wr { kind: if ep >= 3 { 'r' } else { kinds_for(ep, r) }, size: huge, qlen: 0, ..Default::default() }, Wr { kind: kinds_for(ep, r), size: 70000, qlen: 0, ..Default::default() }];
+            push(&mut v, Script { idx: String::new(), ep, buf: 0, rt: 2, chunk: 65536, stall_at: 1 << 20, stall_ms: 400, fault: fault_for(ep, r), opt: Default::default(), ws: ws.clone() });
+            push(&mut v, Script { idx: String::new(), ep, buf: 0, rt: 2, chunk: 65536, stall_at: 9 << 20, stall_ms: 200, fault: Fault::None, opt: Default::default(), ws });
         }
     }
     // tiny reads are only affordable on small streams
@@ -1458,7 +2102,11 @@ fn main() {
     };
     for line in lines {
         out.begin(&line);
+        let t0 = Instant::now();
         let (op, obs, nt) = exec(&mut out, &line);
+        if t0.elapsed() > Duration::from_secs(3) {
+            eprintln!("[torn] slow case ({:?}): {}", t0.elapsed(), &line[..line.len().min(300)]);
+        }
         out.case(&op, &obs, nt);
     }
     out.finish();
